@@ -99,7 +99,8 @@ class Exec:
         return {"w": c["w"], "d": c["d"], "closed": c["closed"], "lost": c["lost"], "paused": c["paused"],
                 "idle": self.it.idle(), "hrun": len(self.script.running),
                 "hin": len(self.script.entered), "hin0": self.script.unknown, "esc": nesc,
-                "wp": bool(self.conn.tr.write_paused), "bud": bool(self.conn.runaway), "pop": self.conn.popped}
+                "wp": bool(self.conn.tr.write_paused), "bud": bool(self.conn.runaway), "pop": self.conn.popped,
+                "pd": bool(self.disconnected)}
 
     def rec(self, ev: str, n: int = 0, a: str = "") -> None:
         sub = self.conn.take_sub()
@@ -225,7 +226,10 @@ class Exec:
                 else:
                     break
             r["att"] = att
-            r["dat"] = dat          # bytes handed to data_received when the first byte was written
+            r["dat"] = dat
+            xi = self.script.exit_info.get(r["id"] or att) or {}
+            # the handler of this response raised an HTTPException after it had produced output
+            r["hxw"] = bool(xi.get("httpexc") and xi.get("wrote"))          # bytes handed to data_received when the first byte was written
         if resps and resps[-1]["fr"] == "close" and not resps[-1]["garbage"] and self.closed_by_end:
             resps[-1]["complete"] = True      # close-delimited body, and the server did close
         qlim = 0
@@ -260,8 +264,9 @@ def add_item(items: List[dict], pieces: List[bytes], kind: str, rid: int, term: 
 
 
 # ---------------------------------------------------------------- driver B: random pipelines
-BEHS_B = [("ret0", 50), ("gate", 10), ("read", 10), ("readsome", 3), ("stream", 5), ("streamself", 2),
-          ("httpexc", 4), ("exc", 4), ("timeout", 3), ("partial", 3), ("never", 2), ("sleep", 3), ("none", 1)]
+BEHS_B = [("ret0", 48), ("gate", 10), ("read", 10), ("readsome", 3), ("stream", 5), ("streamself", 2),
+          ("httpexc", 4), ("exc", 4), ("timeout", 3), ("partial", 2), ("partialto", 2), ("partialhx", 2),
+          ("prephx", 1), ("prepto", 1), ("bodyfail", 2), ("bodyfailx", 1), ("never", 2), ("sleep", 3), ("none", 1)]
 
 
 def wchoice(rng: random.Random, table: List[Tuple[Any, int]]) -> Any:
@@ -343,7 +348,8 @@ def gen_stream(rng: random.Random, cap: int, hostile: float, flood: bool = False
             beh = rng.choice(["gate", "gate", "never", "sleep", "stream"])
         if flood:
             beh = rng.choice(["gate", "gate", "never"]) if i == 1 else wchoice(rng, [("ret0", 80), ("gate", 10), ("read", 10)])
-        if kind == "req" and b" HTTP/1.0\r\n" in p[0] and beh in ("stream", "streamself", "partial"):
+        if kind == "req" and b" HTTP/1.0\r\n" in p[0] and beh in (
+                "stream", "streamself", "partial", "partialto", "partialhx", "prephx", "prepto", "bodyfail", "bodyfailx"):
             beh = "gate"       # unsized StreamResponse to HTTP/1.0 + keep-alive is C02's subject (close-delimited)
         plan[i] = {"beh": beh, "t": float(rng.choice([1, 3, 12, 40]))}
     # a junk item turns the following item into a malformed one
@@ -529,7 +535,8 @@ def real_projection(x: Exec) -> dict:
     resps = srvkit.split_responses(bytes(x.conn.tr.written),
                                    connect_ids=tuple(i["id"] for i in x.items if i.get("special") == "connect"))
     d = {"paused": o["paused"], "closed": o["closed"], "lost": o["lost"], "idle": o["idle"], "hrun": o["hrun"],
-         "nS": len(resps), "nE": sum(1 for r in resps if r["complete"])}
+         "nS": sum(1 for r in resps if r["status"] > 0),      # status lines seen (trailing garbage is not one)
+         "nE": sum(1 for r in resps if r["complete"] and r["status"] > 0)}
     if p:
         d.update({"msgs": p["msgs"], "inflight": p["inflight"], "qpaused": p["qpaused"], "rpaused": p["rpaused"],
                   "fclose": p["fclose"], "close": p["close"]})
@@ -659,6 +666,7 @@ CONSTANTS
   GuardFactory = {gf}
   PoisonFAtParser = {pfp}
   LateUpgradeReset = {lur}
+  GuardHXOutput = {hxg}
   ResumeOnPop = {rop}
   KA = 3
   LG = 1
@@ -669,10 +677,10 @@ ALL_INVS = ["TypeOK", "InOrderOnce", "QueueBound", "BadGets4xxAndClose", "NoOrph
             "PauseCoherent", "NoStrandedTail"]
 
 
-AS_CODED_INVS = ["TypeOK", "InOrderOnce", "QueueBound", "NoOrphanAsCoded", "BadGetsAsCoded",
+AS_CODED_INVS = ["TypeOK", "InOrderOnceAsCoded", "QueueBound", "NoOrphanAsCoded", "BadGetsAsCoded",
                  "PauseCoherentAsCoded", "NoStrandedTailAsCoded"]
-IDEAL = {"mp": True, "gf": True, "pfp": False, "lur": True}
-AS_FOUND = {"mp": False, "gf": False, "pfp": False, "lur": False}     # the snapshot the check was built on
+IDEAL = {"mp": True, "gf": True, "pfp": False, "lur": True, "hxg": True}
+AS_FOUND = {"mp": False, "gf": False, "pfp": False, "lur": False, "hxg": False}     # the snapshot the check was built on
 
 
 def tla_bool(b: bool) -> str:
@@ -685,11 +693,12 @@ def write_cfg(alpha: str, beh: str, n: int, *, hw: int = 99, timers: bool = Fals
     """ideal=True: the intended design; ideal=False: `design` (or the code as found) = what probe_code() saw."""
     dz = dict(IDEAL) if ideal else dict(design or AS_FOUND)
     dz.setdefault("lur", True)
+    dz.setdefault("hxg", True)
     d = mktemp("c05cfg")
     p = os.path.join(d, f"ServerConn_{alpha}_{beh}_{n}.cfg")
     txt = MODEL_CFG.format(alpha=alpha, beh=beh, n=n, cap=cap, resume=cap // 2, hw=hw, timers=tla_bool(timers),
                            disc=disc, wp=wp, mp=tla_bool(dz["mp"]), gf=tla_bool(dz["gf"]), pfp=tla_bool(dz["pfp"]),
-                           lur=tla_bool(dz["lur"]), rop=tla_bool(rop),
+                           lur=tla_bool(dz["lur"]), hxg=tla_bool(dz["hxg"]), rop=tla_bool(rop),
                            invs="".join(f"INVARIANT {i}\n" for i in (ALL_INVS if invs is None else invs)))
     if not view:
         txt = txt.replace("VIEW View\n", "")
@@ -709,6 +718,9 @@ DEVIATIONS = {
     "NoOrphan_UpgradeBodyAfterResponse": "upgrade request with a body answered (declined) before its body was complete: the deferred "
                                          "upgrade takes effect afterwards and nobody switches the parser back; later requests are "
                                          "buffered in _message_tail and never answered, connection left open",
+    "InOrderOnce_HTTPExceptionAfterOutput": "handler raises an HTTPException after prepare()/write(): the except-HTTPException branch of "
+                                            "_handle_request has no 'output already started' guard; a second status line is written "
+                                            "inside the started (chunked) response and the connection is kept alive",
 }
 
 
@@ -728,7 +740,7 @@ def slim(t: dict) -> dict:
         d = e["o"]["d"]
         e["o"]["nh"] = sum(1 for h in hends if h <= d)
         e["o"]["ni"] = sum(1 for x in iends if x <= d)
-    evs = [{"ev": e["ev"], "o": {k: e["o"][k] for k in ("w", "d", "closed", "lost", "paused", "idle", "hrun", "hin", "hin0", "esc", "wp", "bud", "pop", "nh", "ni")}}
+    evs = [{"ev": e["ev"], "o": {k: e["o"][k] for k in ("w", "d", "closed", "lost", "paused", "idle", "hrun", "hin", "hin0", "esc", "wp", "bud", "pop", "pd", "nh", "ni")}}
            for e in t["events"]]
     return {"cfg": cfg, "src": t["src"], "events": evs}
 
@@ -810,7 +822,14 @@ def probe_code(loop: steploop.StepLoop) -> dict:
     x.settle()
     lur = any(r["id"] == 2 for r in srvkit.split_responses(bytes(x.conn.tr.written)))
     x.finish()
-    return {"mp": mp, "gf": answered and first_ok, "pfp": answered and not first_ok, "lur": lur}
+    # handler raises an HTTPException after it has started its response
+    x = Exec(loop, mode="server", eager=True)
+    x.script.plan = {1: {"beh": "partialhx"}}
+    x.deliver(b"".join(srvkit.render_request(1)))
+    x.settle()
+    hxg = bytes(x.conn.tr.written).count(b"HTTP/1.1 ") <= 1
+    x.finish()
+    return {"mp": mp, "gf": answered and first_ok, "pfp": answered and not first_ok, "lur": lur, "hxg": hxg}
 
 
 def model_phase(ctx: Ctx) -> None:
@@ -841,21 +860,30 @@ def model_phase(ctx: Ctx) -> None:
     ctx.log(f"model[ideal] AlphaPoison: {res.distinct} distinct, ok={ok}, {res.wall_s:.0f}s")
     # ... the code as it is satisfies everything except the named deviations it still has ...
     if not design_is_ideal(design):
-        for alpha, k in (("AlphaPoison", n), ("AlphaUpgrade", ctx.pick(2, 3))):
-            cfg, _ = write_cfg(alpha, "BehFast", k, hw=0, disc=1, ideal=False, design=design, invs=AS_CODED_INVS)
+        todo = []
+        if not (design["mp"] and (design["gf"] or design["pfp"])):
+            todo.append(("AlphaPoison", "BehFast", n))
+        if not design["lur"]:
+            todo.append(("AlphaUpgrade", "BehFast", ctx.pick(2, 3)))
+        if not design["hxg"]:
+            todo.append(("AlphaPipe", "BehOut", ctx.pick(2, 3)))
+        for alpha, bh, k in todo:
+            cfg, _ = write_cfg(alpha, bh, k, hw=0, disc=1, ideal=False, design=design, invs=AS_CODED_INVS)
             res = run_tlc("ServerConnMC", cfg, workers=16, timeout=ctx.pick(400, 3000), deadlock=False)
-            ok = ctx.expect_model_ok(f"ServerConn[as-coded]({alpha},BehFast,items<={k})", res)
+            ok = ctx.expect_model_ok(f"ServerConn[as-coded]({alpha},{bh},items<={k})", res)
             ctx.log(f"model[as-coded] {alpha}: {res.distinct} distinct, ok={ok}, {res.wall_s:.0f}s")
     # ... and TLC exhibits each deviation in the as-coded model
     from engine import tlc as _t
     for inv, clause, present, alpha, k in (
             ("NoEscapeDR", "NoEscape_PoisonTarget", not design["mp"], "AlphaPoison", 1),
             ("NoEscapeTask", "NoOrphan_PoisonTarget", not (design["gf"] or design["pfp"]), "AlphaPoison", 1),
-            ("NoLateUpgrade", "NoOrphan_UpgradeBodyAfterResponse", not design["lur"], "AlphaUpgrade", 2)):
+            ("NoLateUpgrade", "NoOrphan_UpgradeBodyAfterResponse", not design["lur"], "AlphaUpgrade", 2),
+            ("InOrderOnce", "InOrderOnce_HTTPExceptionAfterOutput", not design["hxg"], "AlphaTiny", 1)):
         if not present:
             ctx.notes.append(f"{clause}: the code under test does not show this deviation (probe)")
             continue
-        cfg, _ = write_cfg(alpha, "BehFast", k, ideal=False, design=design, invs=[inv])
+        cfg, _ = write_cfg(alpha, "BehOut" if alpha == "AlphaTiny" else "BehFast", k, ideal=False, design=design,
+                           invs=[inv])
         res = run_tlc("ServerConnMC", cfg, workers=4, timeout=300, deadlock=False)
         _t.require_clean(res, f"ServerConn[as-coded,{inv}]")
         ctx.add_model(f"ServerConn[as-coded,{inv}]({alpha},items<={k})", res, exhaustive=False)
@@ -871,7 +899,7 @@ def model_phase(ctx: Ctx) -> None:
 
 
 def design_is_ideal(d: dict) -> bool:
-    return bool(d["mp"] and (d["gf"] or d["pfp"]) and d.get("lur", True))
+    return bool(d["mp"] and (d["gf"] or d["pfp"]) and d.get("lur", True) and d.get("hxg", True))
 
 
 def sim_phase(ctx: Ctx, loop: steploop.StepLoop) -> None:
